@@ -13,7 +13,7 @@ import genb
 from vlib import xhex
 from props.codec_common import CODEC_TRUSTED
 
-THEOREMS = ["C05_no_silent_corruption_partial", "C05_single_bit", "C05_crc_value_change", "C05_any_decoder",
+THEOREMS = ["C05_reencoded_passes", "C05_no_silent_corruption_partial", "C05_single_bit", "C05_crc_value_change", "C05_any_decoder",
             "C05_crc_value_change_canonical", "C05_content_window_canonical", "C05_single_bit_canonical",
             "C05_crc_value_change_primary", "C05_content_window_primary", "C05_single_bit_primary",
             "C05_full_refuted", "C05_uncorrupted_passes", "C05_no_crc_passes", "C05_all_crcno_passes",
